@@ -533,6 +533,27 @@ def overlap_shape(recs):
     return f"n{len(recs)}u{len(us)}d{max(depths, default=0)}x{min(cross, 9)}e{int(any(u == '' for u, _ in us))}"
 
 
+def twins(s, uri=False):
+    """Strings that are NOT s but that a lenient reader might take for s: another letter case, blanks at the edges, the
+    other Unicode normalisation form, a byte order mark; for URIs the other of http / https and a trailing '/' or '#'
+    more or less.  To the library they are different strings - unknown unless registered as such, and registrable next
+    to s in another record (the thirteenth / fourteenth rounds of seeded changes: well-meant normalisations)."""
+    import unicodedata
+
+    out = [s.swapcase(), s.lower(), s.upper(), s.casefold(), " " + s, s + " ", s + "\n", "\t" + s, "\ufeff" + s,
+           unicodedata.normalize("NFC", s), unicodedata.normalize("NFD", s)]
+    if uri:
+        if s.startswith("http://"):
+            out.append("https://" + s[7:])
+        elif s.startswith("https://"):
+            out.append("http://" + s[8:])
+        if s.endswith(("/", "#")):
+            out.append(s[:-1])
+        else:
+            out += [s + "/", s + "#"]
+    return [x for x in dict.fromkeys(out) if x != s]
+
+
 def query_strings(recs, d, rng, extra=()):
     allu = [u for r in recs for u in spec.all_u(r)]
     allp = [p for r in recs for p in spec.all_p(r)]
@@ -567,6 +588,8 @@ def query_strings(recs, d, rng, extra=()):
     for u in allu[:3]:
         for p in allp[:2]:
             qs.add(p + d + u)  # CURIE whose identifier is a registered URI prefix
+            qs.add(u + p + d + "1")  # URI whose identifier is itself a CURIE of the map ("…/chebi/CHEBI:1234")
+            qs.add(p + d + p + d + "1")  # CURIE whose identifier repeats its prefix
     qs.update(extra)
     out = sorted(qs)
     # one string in twelve is an instance of a str subclass: still a string, must be answered like the plain one
